@@ -787,3 +787,43 @@ T("O41", "C06", L + "rsa_single_checks.py", "      if e != 65537:", "      if no
 T("O42", "C04", L + "rsa_util.py", "    factors = special_case_factoring.FactorWithGuess(n, p0)\n    if factors:\n      return factors\n", "    factors = special_case_factoring.FactorWithGuess(n, p0)\n    if not factors:\n      continue\n    return factors\n", "continue after the candidate was tested")
 T("O43", "C09", L + "ecdsa_sig_checks.py", "        a, b = [None] * len(unique_vals), [None] * len(unique_vals)\n", "        a = [None] * len(unique_vals)\n        b = [None] * len(unique_vals)\n", "the two lists allocated separately")
 T("O44", "C18", L + "rsa_aggregate_checks.py", "          proper = None\n          for val in vals:\n            g = gmpy.gcd(vals[i], val)\n            if 1 < g < vals[i]:\n              proper = g\n              break\n", "          proper = next((g for g in (gmpy.gcd(vals[i], val) for val in vals) if 1 < g < vals[i]), None)\n", "next() with a default")
+
+# ---------------------------------------------------------------------------------- round 7 rows (38 stored patches)
+S("Q01", "C01", "C01-r7a", "R-C01-MERGE", "util.GetAttachedInfo was refactored to a single-return loop (attached_info = None; for ...")
+S("Q02", "C01", "C01-r7b", "R-C01-PROPER", "rsa_util.CheckFraction (the lattice helper behind CheckBitPatterns and CheckPermutedBitPat")
+S("Q03", "C02", "C02-r7a", "R-C02-VERIFY", "ec_util.EcCurve.Double (the affine point doubling helper) now returns y2 = y + t*(x2 - x),")
+S("Q04", "C02", "C02-r7b", "R-C02-RELEASE", "ec_util.EcCurve.BatchDL now accepts a baby-step/giant-step candidate as soon as the x-coor")
+S("Q05", "C03", "C03-r7a", "R-C03-RECORD", "util.AttachInfo (the helper through which CheckGCD/CheckGCDN1 record their factors via uti")
+S("Q06", "C03", "C03-r7b", "R-C03-RECORD", "util.GetTestResult now matches a stored result whose test_name STARTS WITH the requested n")
+S("Q07", "C04", "C04-r7a", "R-C04-RECORD", "util.AttachFactors (the helper every RSA factoring check uses to record the primes in test")
+S("Q08", "C04", "C04-r7b", "R-C04-ALWAYS", "rsa_single_checks.CheckFermat.Check now skips every key whose test_info already contains a")
+S("Q09", "C05", "C05-r7a", "R-C05-EXHAUST", "In rsa_single_checks.CheckPermutedBitPatterns.Check the test that leaves the outer limb-si")
+S("Q10", "C05", "C05-r7b", "R-C05-CONSTRUCT", "In rsa_util.CheckFraction the lattice scaling factor was changed from x = 2 ** d0.bit_leng")
+S("Q11", "C06", "C06-r7a", "R-C06-PRED", "ec_single_checks.CheckValidECKey.Check now treats a curve as unknown only when its identif")
+S("Q12", "C06", "C06-r7b", "R-C06-PRED", "rsa_single_checks.CheckExponents no longer converts the exponent to an integer before deci")
+S("Q13", "C07", "C07-r7a", "R-C07-REPEAT", "ec_util.EcCurve.BatchDLOfDifferences: the duplicate-key guard `if x is None: continue` was")
+S("Q14", "C07", "C07-r7b", "R-C07-REPEAT", "rsa_aggregate_checks.CheckGCD now keeps the product of all moduli of earlier Check calls i")
+S("Q15", "C08", "C08-r7a", "R-C08-WEIGHT", "hidden_number_problem.GetLattice: the default lattice-weight ladder for MSB / COMMON_PREFI")
+S("Q16", "C08", "C08-r7b", "R-C08-GUESS", "ec_util.EcCurve.BatchDouble: the tangent numerator 3*x*x + self.a was replaced by 3*(x+1)*")
+S("Q17", "C09", "C09-r7a", "R-C09-BYTES", "util.Int2Bytes now sizes its output as (bit_length + 8) // 8 instead of (bit_length + 7) /")
+S("Q18", "C09", "C09-r7b", "R-C09-FEED", "ec_util.ECDSAValues now keeps only the low n.bit_length() // 8 bytes of the r and s fields")
+S("Q19", "C10", "C10-r7a", "R-C10-ARITH", "In ec_util.EcCurve.BatchAddX the fallback for entries without a usable inverse (previously")
+S("Q20", "C10", "C10-r7b", "R-C10-COVER", "In ec_util.EcCurve.BatchDL the number of giant steps is now derived from the size of the c")
+S("Q21", "C11", "C11-r7a", "R-C11-COMB", "EcCurve._cache (the table of precomputed comb multiples k*G used by BatchMultiplyG) was mo")
+S("Q22", "C11", "C11-r7b", "R-C11-DISPATCH", "EcCurve.Negate now recognises the point at infinity with an identity test (`if p is INFINI")
+S("Q23", "C12", "C12-r7a", "R-C12-LADDER", "extended_nist_suite.LargeBinaryMatrixRank: the loop over matrix sizes was changed from `wh")
+S("Q24", "C12", "C12-r7b", "R-C12-LADDER", "nist_suite.BlockFrequency: the block-size doubling loop `while n // m >= 100` was rewritte")
+S("Q25", "C13", "C13-r7a", "R-C13-ENTRY", "random_test_suite.TestStructure.Failed() no longer reads the per-sub-test State computed b")
+S("Q26", "C13", "C13-r7b", "R-C13-HOLDOUT", "lattice_suite.FindBiasImpl step 4 now computes the p-value with Bias(sample, ...) instead ")
+S("Q27", "C14", "C14-r7a", "R-C14-CLOSED", "berlekamp_massey.LfsrCount: the small-m branch was rewritten from int(2 * 4**(m - 1)) to t")
+S("Q28", "C14", "C14-r7b", "R-C14-SCATTER", "extended_nist_suite.LinearComplexityScatter: the per-sequence length `size = (n + step_siz")
+S("Q29", "C16", "C16-r7a", "R-C16-SEVERITY", "util.GetHighestSeverity now gates on `test_info.weak` instead of `test_result.result`, so ")
+S("Q30", "C16", "C16-r7b", "R-C16-ONCE", "ec_aggregate_checks.CheckECKeySmallDifference.Check now filters each per-curve key list do")
+S("Q31", "C17", "C17-r7a", "R-C17-STATELESS", "rsa_single_checks.CheckLowHammingWeight.Check: for a 'suspected but not factored' modulus ")
+S("Q32", "C17", "C17-r7b", "R-C17-STATELESS", "ec_util.EcCurve.ExtendedBatchDL: the modular inverses of the weak-form multipliers (2**(8j")
+S("Q33", "C18", "C18-r7a", "R-C18-SANITY", "cr50_u2f_weakness.Cr50U2fSubProblem now tests the lattice relation k1*a + k2*b == +/-w on ")
+S("Q34", "C18", "C18-r7b", "R-C18-NULL", "ec_single_checks.CheckWeakCurve.Check: the lookup `curve = CURVE_FACTORY.get(curve_type, N")
+S("Q35", "C19", "C19-r7a", "R-C19-TREE", "ntheory_util.ExtendedProductTree's early exit for the empty batch (`if not values`) was wi")
+S("Q36", "C19", "C19-r7b", "R-C19-FISHER", "randomness_tests/util.CombinedPValue no longer returns 0 when a p-value is 0; the `min(pva")
+S("Q37", "C20", "C20-r7a", "R-C20-WIDTH", "rng.XorShift128plus.RandomBits computes the number of 64-bit blocks as `n // 64 + 1` inste")
+S("Q38", "C20", "C20-r7b", "R-C20-PURE", "rng.Mwc.RandomBits now reduces a given seed modulo a*b-1 up front and merges the seeded an")
